@@ -100,6 +100,11 @@ def mutations(nd):
     for d in range(nd):
         add("mx=rg@%d" % d, lambda s, d=d: s["mx"].__setitem__(d, s["rg"][d]))
         add("mx=rg+3@%d" % d, lambda s, d=d: s["mx"].__setitem__(d, s["rg"][d] + 3))
+        # slack between the largest index used and the declared range (ranges taken from a grid shape): the coordinate
+        # vector must still cover the declared range, not just the indices used
+        add("mx=rg-3@%d" % d, lambda s, d=d: s["mx"].__setitem__(d, max(0, s["rg"][d] - 3)))
+        add("cl=mx+1@%d" % d, lambda s, d=d: d < len(s["cl"]) and s["cl"].__setitem__(d, s["mx"][d] + 1))
+        add("cl=mx+2@%d" % d, lambda s, d=d: d < len(s["cl"]) and s["cl"].__setitem__(d, s["mx"][d] + 2))
         add("cl-1@%d" % d, lambda s, d=d: d < len(s["cl"]) and s["cl"].__setitem__(d, s["rg"][d] - 1))
         add("cl+1@%d" % d, lambda s, d=d: d < len(s["cl"]) and s["cl"].__setitem__(d, s["rg"][d] + 1))
         add("cl=0@%d" % d, lambda s, d=d: d < len(s["cl"]) and s["cl"].__setitem__(d, 0))
@@ -165,6 +170,11 @@ def lattice_1d():
                                 s = {"pop": 0, "rows": r, "rg": [r], "mx": [r - 1], "nw": r, "cl": [r + cld], "od": [o], "kl": [kl], "ks": [srt],
                                      "sm": [nz], "po": [p], "mono": mono}
                                 out.append(("1d", s))
+                                if mono == -1 and nz == 1:
+                                    # largest used index 3 of a declared range 6: coordinate lengths between the two
+                                    for cl in ((4, 5) if cld == 0 else (r + cld,)):
+                                        s2 = clone(s); s2["mx"] = [3]; s2["cl"] = [cl]
+                                        out.append(("1d", s2))
     return out
 
 def apply_mut(f, s):
